@@ -85,7 +85,48 @@ class LibBase:
         return None
 
     def reduce_genexp(self, ex, name, node, st):
-        raise Unsupported("%s(genexp) at line %d" % (name, node.lineno))
+        """any(e(x) for x in L [if c(x)]) / all(...) over a modelled list: decided path-wise with an index witness
+        (any: some position satisfies c and e  |  none does;  all: some position satisfies c and not e  |  none does)"""
+        import ast
+        import z3
+        from . import logic
+        from . import values as V
+        from .execute import Exc, feasible
+        from .values import SList, VBool
+        ge = node.args[0]
+        if name not in ("any", "all") or len(ge.generators) != 1 or not isinstance(ge.generators[0].target, ast.Name):
+            raise Unsupported("%s(genexp) at line %d" % (name, node.lineno))
+        g = ge.generators[0]
+        var = g.target.id
+        outs = []
+        for it, s in ex.eval(g.iter, st):
+            if isinstance(it, Exc):
+                outs.append((it, s))
+                continue
+            lst = ex.deref(it, s)
+            if not isinstance(lst, SList):
+                raise Unsupported("%s() over %r (line %d)" % (name, lst, node.lineno))
+
+            def hit(i, s=s, lst=lst):
+                s2 = s.fork()
+                s2.loc[var] = lst.at(i)
+                cs = [V.truth(ex.eval_pure(c, s2, node.lineno)) for c in g.ifs]
+                e = V.truth(ex.eval_pure(ge.elt, s2, node.lineno))
+                cs.append(e if name == "any" else z3.Not(e))
+                return logic.conj(cs)
+            p = logic.fresh_idx(name + "-witness")
+            s1 = s.fork()
+            s1.assume(z3.And(0 <= p, p < lst.len, hit(p)))
+            s1.trace.append("L%d:%s-witness" % (node.lineno, name))
+            if feasible(s1, ex.ctx):
+                outs.append((VBool(z3.BoolVal(name == "any")), s1))
+            s2 = s.fork()
+            s2.assume(logic.Forall(1, lambda j: z3.Implies(z3.And(0 <= j, j < lst.len), z3.Not(hit(j))), [lst.len],
+                                   name + "-no-witness"))
+            s2.trace.append("L%d:%s-no-witness" % (node.lineno, name))
+            if feasible(s2, ex.ctx):
+                outs.append((VBool(z3.BoolVal(name != "any")), s2))
+        return outs
 
     def len_of(self, ex, v, st, lineno):
         return None
